@@ -899,6 +899,10 @@ def r_score_buffers(repo, rep, R):
                           'differently typed array would be read with the wrong layout' % (what, ty or 'without a type'))
             elif isinstance(e, ast.Subscript) and isinstance(e.value, ast.Name) and decls.get(e.value.id, '').replace(' ', '').endswith(',::1]'):
                 rep.check(True, R, w, key, 'the %s score matrix is a C-contiguous typed memoryview (%s)' % (what, decls[e.value.id]), '')
+            elif isinstance(e, ast.Subscript) and isinstance(e.value, ast.Name) and '[:' in decls.get(e.value.id, '').replace(' ', ''):
+                rep.check(False, R, w, key, '', 'the %s score matrix is handed to the search as the address of its first element, but the view is declared %r: '
+                          'that accepts strided and transposed arrays (a column slice, a Fortran-ordered matrix) without copying, and the search reads the memory '
+                          'behind the pointer as dense rows -- it ranks numbers that are not the scores of that word' % (what, decls[e.value.id]))
             else:
                 raise AnalysisError('%s: cannot tell how the %s score pointer %s is obtained' % (REL, what, src(call.args[idx])))
 
